@@ -17,7 +17,8 @@
    Locals (T n) used here:  0 resmul/res (ruint<K+1>)   1 ci (div)   2 res (MGA addmul)   3,4 get_ruint(b), get_ruint(c)
      5 the local rmint built from a native word   6 x (MGA exp)   10 a0 (MGA reduction)   11 res (to_mg)
      12 the temporary  a.p - b.Value  of sub(a,b)
-     20 aa  21 bb (generic div)   22 r (div_q)   23 q (div_r)   24 bb(b) (word forms)   25 rr (word form) *)
+     20 aa  21 bb (generic div)   22 r (div_q)   23 q (div_r)   24 bb(b) (word forms)   25 rr (word form)
+     30..45 the window table g[0..15] of the MGA exp(a,b,const ruint<K>&)   50 the local copy c of its exponent *)
 From Coq Require Import ZArith List Bool.
 From C15 Require Import Model.
 Import ListNotations.
@@ -31,6 +32,16 @@ Fixpoint powm_pos (x : Z) (e : positive) (m : Z) : Z :=
   | xI e' => let y := powm_pos x e' m in (((y * y) mod m) * x) mod m
   end.
 Definition expmod (x e m : Z) : Z := match e with Zpos q => powm_pos x q m | _ => 1 mod m end.
+
+(* limbs and 4-bit windows of a ruint exponent (rmgexp.h: limb = __RECINT_LIMB_BITS = 64 bits, NB_WIN = 64/4 windows
+   per limb, mask = 0xf);  NBLIMB<K>::value = 2^(K-6) = log2 W / 64 *)
+Definition LIMB : Z := 2 ^ 64.
+Definition NB_WIN : nat := 16.
+Definition limb_of (c : Z) (i : nat) : Z := (c / LIMB ^ Z.of_nat i) mod LIMB.            (* *originalTab[i] *)
+Definition win_of (x : Z) (j : nat) : nat := Z.to_nat ((x / 2 ^ (4 * Z.of_nat j)) mod 16).   (* (exp >> (j<<2)) & mask *)
+Definition nlimbs (W : Z) : nat := Z.to_nat (Z.log2 W / 64).
+(* the local table  rmint<K,MGA> g[16] *)
+Definition G (i : nat) : loc := T (30 + i).
 
 (* ================================================================== more RecInt primitives (atomic) *)
 Section RecIntMore.
@@ -53,6 +64,9 @@ Section RecIntMore.
   (* exp_mod(a, b, T c, n) *)
   Definition ru_expmod (r : loc) (b : arg) (e : Z) (n : arg) : M unit :=
     x <- rd b ;; m <- rd n ;; stor r (expmod x e m).
+  (* exp_mod(a, b, const ruint<K>& c0, n0) (ruexp.h: x(b), c(c0), n(n0) are copied before a is written) *)
+  Definition ru_expmod_l (r : loc) (b e n : arg) : M unit :=
+    x <- rd b ;; c <- rd e ;; m <- rd n ;; stor r (expmod x c m).
   (* div_r(r, x, y) on by-value temporaries x, y (rmdiv.h mod: the operands are the results of get_ruint) *)
   Definition ru_divr (r : loc) (a b : arg) : M unit := x <- rd a ;; y <- rd b ;; stor r (x mod y).
 
@@ -191,6 +205,56 @@ Section RecIntMore.
       if mg then ru_copy (T 6) (L b) ;; ru_copy a (K r) ;; rmg_exp_loop 64 a (T 6) e
       else ru_expmod a (L b) e (K p).
 
+    (* ---- rmbexp.h / rmgexp.h, exponent a ruint<K> c: an OBJECT (location c; exp(a, b, a.Value) is a legal call)
+       MGI exp(a,b,c): exp_mod(a.Value, b.Value, c, a.p)
+       MGA exp(a,b,c0), 16-entry window table (nl = NBLIMB<K>::value limbs, from the top; 16 windows per limb, from the top):
+           const ruint<K> c(c0);                                          (the repair: rm_expw; without it: rm_expw_old)
+           pointers_list(originalTab, c);                                 (pointers INTO c: the limbs are read in the loop)
+           copy(g[0].Value, r); for (i=1;i<16;i++) mul(g[i], g[i-1], b);
+           copy(a.Value, r);
+           for (i = nl-1; i > 0; i--) { exp = **tab;
+               for (j = NB_WIN-1; j >= 0; j--) { mul(a, a, g[(exp >> (j<<2)) & mask]); square(a,a) x 4 }  tab--; }
+           exp = **tab;
+           for (j = NB_WIN-1; j > 0; j--) { mul(a, a, g[(exp >> (j<<2)) & mask]); square(a,a) x 4 }
+           mul(a, a, g[exp & mask]);
+       `exp = **tab` is the load of limb i of the object c AT THAT MOMENT: load c, then limb_of. *)
+    Fixpoint rmg_table (n : nat) (b : loc) : M unit :=               (* for (i = 1; i <= n; i++) mul(g[i], g[i-1], b) *)
+      match n with
+      | O => skip
+      | S k => rmg_table k b ;; rm_mul (G (S k)) (G k) b
+      end.
+    Definition rmg_win (a : loc) (x : Z) (j : nat) : M unit :=
+      rm_mul a a (G (win_of x j)) ;; rm_square a a ;; rm_square a a ;; rm_square a a ;; rm_square a a.
+    Fixpoint rmg_wins (n : nat) (a : loc) (x : Z) : M unit :=        (* for (j = n-1; j >= 0; j--) *)
+      match n with
+      | O => skip
+      | S j => rmg_win a x j ;; rmg_wins j a x
+      end.
+    Fixpoint rmg_wins1 (n : nat) (a : loc) (x : Z) : M unit :=       (* for (j = n; j > 0; j--) *)
+      match n with
+      | O => skip
+      | S j => rmg_win a x (S j) ;; rmg_wins1 j a x
+      end.
+    Fixpoint rmg_limbs (n : nat) (a c : loc) : M unit :=             (* for (i = n; i > 0; i--) { exp = **tab; ...; tab--; } *)
+      match n with
+      | O => skip
+      | S i => v <- load c ;; rmg_wins NB_WIN a (limb_of v (S i)) ;; rmg_limbs i a c
+      end.
+    Definition rmg_expw_body (nl : nat) (a b c : loc) : M unit :=
+      ru_copy (G 0) (K r) ;;
+      rmg_table 15 b ;;
+      ru_copy a (K r) ;;
+      rmg_limbs (nl - 1) a c ;;
+      v <- load c ;;
+      rmg_wins1 (NB_WIN - 1) a (limb_of v 0) ;;
+      rm_mul a a (G (win_of (limb_of v 0) 0)).
+    Definition rm_expw (nl : nat) (a b c : loc) : M unit :=
+      if mg then ru_copy (T 50) (L c) ;; rmg_expw_body nl a b (T 50)
+      else ru_expmod_l a (L b) (L c) (K p).
+    Definition rm_expw_old (nl : nat) (a b c : loc) : M unit :=
+      if mg then rmg_expw_body nl a b c
+      else ru_expmod_l a (L b) (L c) (K p).
+
     (* ---- rmbrmint.h / rmgrmint.h: the local rmint built from a native word w (T n):
        MGI unsigned: Value(b) { mod_n(Value, p); }     signed: Value(|b|) { mod_n(Value, p); if (b < 0) neg( *this); }
        MGA unsigned: Value(b) { to_mg( *this); }       signed: Value(|b|) { mod_n(Value, p); if (b < 0) sub(Value, p, Value); to_mg( *this); }
@@ -262,7 +326,9 @@ End RecIntMore.
      8 exp(a,b,w)  9 add(a,b,T w)  10 sub(a,b,T w)  11 mul(a,b,T w)  12 div(a,b,T w)  13 mod(a,b,T w)  14 inv(a,T w)
    the destination is also read ("in place"):
      15 add(a,b)  16 sub(a,b)  17 neg(a)  18 mul(a,b)  19 square(a)  20 inv(a)  21 div(a,b)  22 mod(a,b)
-     23 addmul(a,b,c)  24 add(a,T w)  25 sub(a,T w)  26 mul(a,T w)  27 div(a,T w)  28 mod(a,T w)  29.. addmul(a,b,T w)
+     23 addmul(a,b,c)  24 add(a,T w)  25 sub(a,T w)  26 mul(a,T w)  27 div(a,T w)  28 mod(a,T w)  29, 31.. addmul(a,b,T w)
+   30 exp(a,b,const ruint<K>& c): the destination is only written; the exponent is the OBJECT at the third position
+      (nl = nlimbs W limbs)
    positions: a = the destination (first location), b, c = the second and third *)
 Definition rm_op (mg : bool) (W p p1 r : Z) (w : Z) (op : nat) : op4 :=
   match op with
@@ -276,14 +342,25 @@ Definition rm_op (mg : bool) (W p p1 r : Z) (w : Z) (op : nat) : op4 :=
   | 21 => lift2 (rm_divin W mg p p1) | 22 => lift2 (rm_modin W mg p p1) | 23 => lift3 (rm_addmul W mg p p1)
   | 24 => lift1 (rm_addin_w W mg p w) | 25 => lift1 (rm_subin_w W mg p w) | 26 => lift1 (rm_mulin_w W mg p p1 w)
   | 27 => lift1 (rm_divin_w W mg p p1 w) | 28 => lift1 (rm_modin_w W mg p p1 w)
+  | 30 => lift3 (rm_expw W mg p p1 r (nlimbs W))
   | _ => lift2 (rm_addmul_w W mg p p1 w)
   end%nat.
 
 (* run an rmint operation: result = final values of the four position objects [r; a; b; c].
-   op = 100: the sub(a,b,c) body before 58e2703 (to run the model against an unrepaired tree) *)
+   op = 100: the sub(a,b,c) body before 58e2703 (to run the model against an unrepaired tree)
+   op = 101: exp(a,b,const ruint<K>& c) of MGA without the copy of the exponent (rm_expw_old) *)
 Definition run_rm (mg : bool) (W p p1 r : Z) (op : nat) (ir ia ib ic : positive) (vr va vb vc : Z) (w : Z) : list Z :=
-  let f := if Nat.eqb op 100 then lift3 (rm_sub_old W p) else rm_op mg W p p1 r w op in
+  let f := if Nat.eqb op 100 then lift3 (rm_sub_old W p)
+           else if Nat.eqb op 101 then lift3 (rm_expw_old W mg p p1 r (nlimbs W))
+           else rm_op mg W p p1 r w op in
   dump4 (exec (f (U ir) (U ia) (U ib) (U ic)) (mk4 ir ia ib ic vr va vb vc)) ir ia ib ic.
+(* exp(a, b, const ruint<K>& c) of rmint<K,MGA> with an explicit number of limbs: positions r (destination), a (base),
+   e (exponent object); old = true: the body without the copy of the exponent.  Result = final values of [r; a; e] *)
+Definition run_rm_expw (old : bool) (W p p1 r : Z) (nl : nat) (ir ia ie : positive) (vr va ve : Z) : list Z :=
+  let h0 := upd (upd (upd (fun _ => 0) (U ie) ve) (U ia) va) (U ir) vr in
+  let c := if old then rm_expw_old W true p p1 r nl (U ir) (U ia) (U ie)
+           else rm_expw W true p p1 r nl (U ir) (U ia) (U ie) in
+  let h := exec c h0 in [h (U ir); h (U ia); h (U ie)].
 
 (* div(q,r,a,b): result = final values of [q; r; a; b] *)
 Definition run_rudiv (one_limb : bool) (W : Z) (iq ir ia ib : positive) (vq vr va vb : Z) : list Z :=
